@@ -139,9 +139,46 @@ def like_free_case(draw, tier='quick'):
             'chain': max_chain, 'n_over': n_over}
 
 
+@st.composite
+def with_imp_data_card(draw, base):
+    """In one case out of three the importances move to an IMP:N data card
+    (one entry per cell card, by position).  A LIKE cell has an entry of its
+    own there, which need not be the entry of the cell it copies: the copied
+    card has no IMP keyword to inherit."""
+    case = draw(base)
+    if draw(st.integers(0, 2)) != 0:
+        return case
+    deck = case['deck']
+    cells = deck['cells']
+    exp = {c['id']: c for c in md.expand_like(deck)['cells']}
+    for c in cells:
+        if set((exp[c['id']].get('imp') or {'n': 1}).keys()) != {'n'}:
+            return case
+        if c.get('like') and not [k for k in c['like']['but']
+                                  if k not in ('imp', 'imp_groups')]:
+            return case         # the BUT list would become empty
+    vals = []
+    for c in cells:
+        v = float((exp[c['id']].get('imp') or {'n': 1})['n'])
+        if c.get('like'):
+            but = c['like']['but']
+            if 'imp' in but:
+                but.pop('imp')
+                but.pop('imp_groups', None)
+            else:
+                v = float(draw(st.sampled_from([0, 1, 1, 2])))
+        c['imp'] = None
+        c.pop('imp_groups', None)
+        vals.append(v)
+    deck['imp_cards'] = {'n': {'values': vals}}
+    case['labels'] = sorted(set(case['labels']) | {'imp:data-card'})
+    return case
+
+
 def strategy(tier):
-    return st.one_of(like_free_case(tier), like_free_case(tier),
-                     gen_hier.like_case(tier))
+    return with_imp_data_card(st.one_of(like_free_case(tier),
+                                        like_free_case(tier),
+                                        gen_hier.like_case(tier)))
 
 
 def budget(tier):
